@@ -54,7 +54,11 @@ CastRows ==
 
 NoexceptOps == {"move_ctor", "move_assign", "swap", "std_swap", "reset", "clear", "has_value", "empty", "type"}
 Traits == {"bad_any_cast_is_a_bad_cast", "copy_constructible", "copy_assignable", "move_constructible",
-           "constructible_from_value", "constructible_from_array", "constructible_from_function", "assignable_from_value"}
+           "constructible_from_value", "constructible_from_array", "constructible_from_function", "assignable_from_value",
+           (* [any.cons]/[any.assign]: the converting constructor / assignment do not participate when decay_t<ValueType> is any, so an
+              any source of EVERY value category (any&, const any&, any&&, const any&&) goes to the copy or move members; in
+              particular a const rvalue any is copied (run time: CopyConstruct / CopyAssign with nc = 2) *)
+           "copy_from_const_rvalue"}
 NoTerm == [c |-> FALSE, ref |-> "none"]
 OtherRows ==
        {[kind |-> "noexcept", operand |-> w, target |-> NoTerm, status |-> "must", ret |-> NoTerm, nothrow |-> TRUE] : w \in NoexceptOps}
